@@ -187,7 +187,8 @@ def run_case(case, rec):
                     fl = x * gam * Psat * pcf; fg = y * phi * P0
                     dev = float(np.abs(fl - fg).max() / fg.max()) if case['inert'] is None else float((np.abs(fl - fg) / fg).max())
                     dev = float((np.abs(fl - fg) / fg).max())
-                    rec.check(dev <= 1e-4, 'iso-fugacity', 'TP', f'liquid and vapour fugacities differ by {dev:.3g} (relative) after vle(T={T0}, P={P0}) on {ids}: f_l={fl.tolist()}, f_g={fg.tolist()}', residual=dev)
+                    isfx = '/unconverged-fixed-point' if dev > 1e-4 and fixed_point_status(th, cs, x, y, V_tp, T0, P0) == 'unconverged' else ''
+                    rec.check(dev <= 1e-4, 'iso-fugacity', 'TP' + isfx, f'liquid and vapour fugacities differ by {dev:.3g} (relative) after vle(T={T0}, P={P0}) on {ids}: f_l={fl.tolist()}, f_g={fg.tolist()}', residual=dev)
             # ---- scaling
             k = case['k']
             s2 = make(case, th, scale=k)
@@ -678,6 +679,32 @@ def totals_of(s):
     return a.sum(0) if a.ndim == 2 else a
 
 
+def fixed_point_status(th, cs, x, y, V, T, P):
+    """mechanism probe for an iso-fugacity mismatch: continue the plain successive substitution (K = gamma Psat pcf / (phi P), Rachford-Rice for V) from the returned split,
+    with the package's own model objects as data.  'unconverged' when that iteration converges (step < 1e-12) to a split whose fugacities agree to 1e-8 and which lies more
+    than 1e-5 (ten times the flash's K_tol = 1e-6) away from the returned one: the flash returned an iterate of its fixed point, not its limit."""
+    try:
+        gam = th.Gamma(cs); phi = th.Phi(cs); pcf = th.PCF(cs)
+        Psat = np.array([c.Psat(T) for c in cs]); pc = pcf(T, P, Psat)
+        z = V * y + (1 - V) * x; z = z / z.sum()
+        x0, y0, V0 = x.copy(), y.copy(), V
+        for _ in range(500):
+            K = pc * Psat * gam(x.copy(), T) / (phi(y.copy(), T, P) * P)
+            Vn = _bisect(lambda v: float((z * (K - 1) / (1 + v * (K - 1))).sum()), 1e-12, 1 - 1e-12)
+            if Vn is None: return 'unknown'
+            xn = z / (1 + Vn * (K - 1)); yn = K * xn; xn = xn / xn.sum(); yn = yn / yn.sum()
+            step = max(np.abs(xn - x).max(), np.abs(yn - y).max(), abs(Vn - V))
+            x, y, V = xn, yn, Vn
+            if step < 1e-12: break
+        else: return 'unknown'
+        fl = x * gam(x.copy(), T) * Psat * pc; fg = y * phi(y.copy(), T, P) * P
+        if float((np.abs(fl - fg) / fg).max()) > 1e-8: return 'unknown'
+        moved = max(np.abs(x - x0).max(), np.abs(y - y0).max(), abs(V - V0))
+        return 'unconverged' if moved > 1e-5 else 'at-fixed-point'
+    except Exception:
+        return 'unknown'
+
+
 def _bisect(f, lo, hi, n=100):
     flo, fhi = f(lo), f(hi)
     if not (flo < 0 < fhi or fhi < 0 < flo): return None
@@ -789,7 +816,9 @@ def history_clauses(h, rec):
             Psat = Psats(ids_, T)
             fl = x * th.Gamma(cs)(x.copy(), T) * Psat * th.PCF(cs)(T, P, Psat); fg = y * th.Phi(cs)(y.copy(), T, P) * P
             dev = float((np.abs(fl - fg) / fg).max())
-            rec.check(dev <= 1e-4, 'iso-fugacity', 'TP/history/' + sfx, f'{what}: liquid and vapour fugacities differ by {dev:.3g} (relative) after vle(T={T}, P={P}): f_l={fl.tolist()}, f_g={fg.tolist()}', residual=dev)
+            # (the suffix is the recorded fixed-point mechanism, independent of the history: a fresh stream gives the same iterate)
+            ksfx = 'TP/unconverged-fixed-point' if dev > 1e-4 and fixed_point_status(th, cs, x, y, V, T, P) == 'unconverged' else 'TP/history/' + sfx
+            rec.check(dev <= 1e-4, 'iso-fugacity', ksfx, f'{what}: liquid and vapour fugacities differ by {dev:.3g} (relative) after vle(T={T}, P={P}): f_l={fl.tolist()}, f_g={fg.tolist()}', residual=dev)
         fr = hist_stream(th, amt, h['Ts'], P * h['Psf'])
         if flash(fr, 'fresh', T=T, P=P):
             Vf = vfrac(fr, vidx)
